@@ -551,4 +551,56 @@ def tableFun (t : List (Nat × Str)) (c : Nat) : Str :=
 /-- membership in a list of inclusive code point ranges -/
 def inRanges (rs : List (Nat × Nat)) (c : Nat) : Bool := rs.any fun r => r.1 ≤ c && c ≤ r.2
 
+/-! ## `evaluate__substring`: how the position arguments arrive -/
+
+/-- a position argument of `substring`: a number; a node or `xs:untypedAtomic` value (converted by
+`validated_value(…, NumericProxy)`: `number()` in XPath 1.0, cast to `xs:double` in 2.0+) whose
+numeric value is `n`; or an `xs:string` whose `number()` value would be `n` -/
+inductive PosArg where
+  | num (n : Num)
+  | untyped (n : Num)
+  | string (n : Num)
+
+/-- the value after
+```
+start = self.get_argument(context, index=1, required=True)
+if isinstance(start, (XPathNode, UntypedAtomic)):
+    start = self.validated_value(start, NumericProxy, index=1)
+if math.isinf(start) …            # math.isnan / math.isinf of a str raise TypeError
+except TypeError: raise self.error('FORG0006', …)
+``` -/
+def posValue : PosArg → Except Unit Num
+  | .num n => .ok n
+  | .untyped n => .ok n
+  | .string _ => .error ()      -- FORG0006
+
+inductive SubErr where
+  | FORG0006
+  deriving DecidableEq, Repr
+
+def fnSubstring2 (item : Option Str) (start : PosArg) : Except SubErr Str :=
+  match posValue start with
+  | .error _ => .error .FORG0006
+  | .ok a => .ok (substring2 (argDefault item) a)
+
+def fnSubstring3 (item : Option Str) (start length : PosArg) : Except SubErr Str :=
+  match posValue start with
+  | .error _ => .error .FORG0006
+  | .ok a =>
+    -- the length argument is only read when the start is a finite number
+    match a with
+    | .nan => .ok [] | .pinf => .ok [] | .ninf => .ok []
+    | .fin _ _ =>
+      match posValue length with
+      | .error _ => .error .FORG0006
+      | .ok b => .ok (substring3 (argDefault item) a b)
+
+/-- Trigger predicate of known finding F09j (XPath 1.0 parser): a position argument is a string -/
+def PosArg.isString : PosArg → Bool
+  | .string _ => true
+  | _ => false
+
+def PosArg.value : PosArg → Num
+  | .num n => n | .untyped n => n | .string n => n
+
 end EPV.Strings
